@@ -3,13 +3,17 @@
 (* C13 - reference evaluator of the IMAP SEARCH key algebra (RFC 3501       *)
 (* 6.4.4, 6.4.8; RFC 2180 4.3 for expunged-but-unannounced messages).       *)
 (*                                                                         *)
-(* A state is one <<mailbox view, search program, expected answer>> triple. *)
+(* The initial states are the mailbox views; one step asks one search        *)
+(* program in a view, so every successor state is one                       *)
+(* <<mailbox view, search program, expected answer>> triple:                *)
 (*   - `mbox`  : the session's current view, a sequence of abstract         *)
 (*               messages (position = message sequence number).  A message  *)
 (*               with hidden = TRUE was expunged by another session and the *)
 (*               expunge has not been announced to this session yet: it     *)
-(*               still occupies its sequence number.                        *)
-(*   - `key`   : the search program, a tree of search keys.                 *)
+(*               still occupies its sequence number.  (Answer states drop   *)
+(*               it and keep `mbid`: the harness reads the state graph.)    *)
+(*   - `key`   : the search program, a tree of search keys; `rw`: it is a   *)
+(*               rewriting (Equivs) of a program picked by KeysFor.         *)
 (*   - `exp`   : what the server may answer to SEARCH (`exp.seq`, sets of   *)
 (*               sequence numbers) and to UID SEARCH (`exp.uid`, sets of    *)
 (*               UIDs): `alts` is the SET of id-sets the RFCs allow;        *)
@@ -19,13 +23,13 @@
 (*   - `bad`   : reasons for which a tagged BAD is explained                *)
 (*               ("SeqBeyondView": allowed by RFC 3501; "DoubleNotRejected":*)
 (*               a named deviation).                                        *)
+(*   - `law`   : the algebraic laws that FAIL for this triple (invariants:  *)
+(*               none does).                                                *)
 (*                                                                         *)
-(* Init picks the mailboxes, Ask(k) picks a program and evaluates it,       *)
-(* Rewrite(e) replaces the program by a logically equivalent one.  With     *)
-(* Exhaustive = TRUE every mailbox over the configured universes and every  *)
-(* key tree of depth <= 2 over the configured leaves is enumerated; with    *)
-(* Exhaustive = FALSE the same sets are sampled with TLC's seeded           *)
-(* Randomization (-seed/-fp fix the sample).                                *)
+(* With Exhaustive = TRUE every mailbox over the configured universes and   *)
+(* every key tree of depth <= 2 over the configured leaves is enumerated;   *)
+(* with Exhaustive = FALSE the same sets are sampled with TLC's seeded      *)
+(* Randomization (-seed and -fp fix the sample).                            *)
 (***************************************************************************)
 EXTENDS Integers, Sequences, FiniteSets, TLC, Randomization
 
@@ -57,9 +61,9 @@ CONSTANTS
     \* ---- sampling (Exhaustive = FALSE)
     NumMb, NumLeaf, NumLeafSets, LeafSetSize, NumD1, NumD2
 
-VARIABLES mbox, key, rw, exp, bad
+VARIABLES mbid, mbox, key, rw, exp, bad, law
 
-vars == <<mbox, key, rw, exp, bad>>
+vars == <<mbid, mbox, key, rw, exp, bad, law>>
 
 NoKey  == [op |-> "NONE"]
 NoSent == [d |-> -100, s |-> 0]      \* the message has no Date: header
@@ -257,7 +261,8 @@ Flip(set) == [i \in 1..Len(set) |-> <<set[i][2], set[i][1]>>]
 
 Equivs(k) ==
     LET o == k.op IN
-    {Not(Not(k)), Not(And(<<Not(k)>>)), And(<<k>>), Or(k, k)} \cup
+    {Not(And(<<Not(k)>>))} \cup
+    (IF o \notin {"NOT", "OR", "AND"} THEN {Not(Not(k)), And(<<k>>), Or(k, k)} ELSE {}) \cup
     CASE o \in DOMAIN Dual -> {Not(Leaf(Dual[o]))}
       [] o = "NEW"        -> {And(<<Leaf("RECENT"), Leaf("UNSEEN")>>)}
       [] o = "ALL"        -> {[op |-> "UID", set |-> <<<<1, 0>>>>], [op |-> "SEQ", set |-> <<<<1, 0>>>>]}
@@ -344,32 +349,67 @@ SampleKeys(v) ==
 KeysFor(v) == IF Exhaustive THEN Depth2(AllLeaves) ELSE SampleKeys(v)
 
 ---------------------------------------------------------------------------
+(* Sanity of the model itself: the algebraic laws, evaluated for the program *)
+(* k on the view v.  Laws(k, v) is the set of laws that FAIL; it is stored   *)
+(* in the state (`law`) when the program is asked, and the invariants below  *)
+(* say it is empty.  (The answer states do not carry the mailbox: the state  *)
+(* graph is what the harness reads the expected answers from.)               *)
+
+Law(name, holds) == IF holds THEN {} ELSE {name}
+
+Laws(k, v) ==
+    LET R(x) == Res(x, v, Ideal)
+        P    == Pos(v)
+    IN  \* NOT is the complement within the view, NOT NOT k is k
+        Law("Not", /\ R(Not(k)) = P \ R(k)
+                   /\ R(Not(Not(k))) = R(k))
+        \* OR is union, and OR a b == NOT (NOT a NOT b)
+   \cup Law("Or", k.op = "OR" =>
+                   /\ R(k) = R(k.a) \cup R(k.b)
+                   /\ R(k) = R(Not(And(<<Not(k.a), Not(k.b)>>))))
+        \* several keys are the intersection
+   \cup Law("And", k.op = "AND" =>
+                   R(k) = {p \in P : \A i \in 1..Len(k.ks) : p \in R(k.ks[i])})
+        \* the UID answer (evaluated by UID, on its own) is the sequence-number
+        \* answer mapped through the view
+   \cup Law("UidSeq", /\ ResU(k, v, Ideal) = ToUids(R(k), v)
+                      /\ AltsU(k, v, Ideal) = {ToUids(A, v) : A \in Alts(k, v, Ideal)}
+                      /\ R(k) \in Alts(k, v, Ideal))
+        \* every rewriting in Equivs(k) selects the same messages, under every
+        \* reading of the dates
+   \cup Law("Equiv", \A e \in Equivs(k) : \A dm \in DateModes :
+                       Res(e, v, [Ideal EXCEPT !.date = dm]) = Res(k, v, [Ideal EXCEPT !.date = dm]))
+
+---------------------------------------------------------------------------
 (* The state machine *)
 
 NoExp == [seq |-> [alts |-> {}, dev |-> <<>>], uid |-> [alts |-> {}, dev |-> <<>>]]
 
-Init == /\ IF Exhaustive THEN mbox \in AllMailboxes
-                         ELSE \E i \in 1..NumMb : mbox = RandMailbox(i)
-        /\ key = NoKey /\ rw = FALSE /\ exp = NoExp /\ bad = {}
+Init == /\ IF Exhaustive THEN mbid = 0 /\ mbox \in AllMailboxes
+                         ELSE \E i \in 1..NumMb : mbid = i /\ mbox = RandMailbox(i)
+        /\ key = NoKey /\ rw = FALSE /\ exp = NoExp /\ bad = {} /\ law = {}
 
-Answer(k) == /\ key' = k
-             /\ exp' = Expect(k, mbox)
-             /\ bad' = BadReasons(k, mbox)
-             /\ UNCHANGED mbox
+\* the program e is asked in the view mbox; e is k itself or a rewriting of k
+Answer(k, e) == /\ key = NoKey
+                /\ key' = e
+                /\ rw'  = (e # k)
+                /\ exp' = Expect(e, mbox)
+                /\ bad' = BadReasons(e, mbox)
+                /\ law' = IF e = k THEN Laws(k, mbox)
+                          ELSE Law("Rewrite", Alts(e, mbox, Ideal) = Alts(k, mbox, Ideal))
+                /\ mbox' = <<>>
+                /\ UNCHANGED mbid
 
-Ask(k) == key = NoKey /\ rw' = FALSE /\ Answer(k)
+Ask(k)        == Answer(k, k)
+Rewrite(k, e) == Answer(k, e)
 
-Rewrite(e) == key # NoKey /\ ~rw /\ rw' = TRUE /\ Answer(e)
-
-Next == \/ key = NoKey /\ \E k \in KeysFor(mbox) : Ask(k)
-        \/ Rewrites /\ key # NoKey /\ ~rw /\ \E e \in Equivs(key) : Rewrite(e)
+Next == \E k \in KeysFor(mbox) :
+            \/ Ask(k)
+            \/ Rewrites /\ \E e \in Equivs(k) \ {k} : Rewrite(k, e)
 
 Spec == Init /\ [][Next]_vars
 
 ---------------------------------------------------------------------------
-(* Sanity of the model itself *)
-
-Asked == key # NoKey
 
 MailboxOK ==
     /\ Len(mbox) <= MaxMsgs
@@ -379,36 +419,17 @@ MailboxOK ==
                             /\ (p > 1 /\ "Recent" \in mbox[p - 1].flags) => "Recent" \in mbox[p].flags
                             /\ mbox[p].sent = NoSent \/ mbox[p].sent \in DateTimes
 
-R(k) == Res(k, mbox, Ideal)
+InvNot     == "Not" \notin law
+InvOr      == "Or" \notin law
+InvAnd     == "And" \notin law
+InvUidSeq  == "UidSeq" \notin law
+InvEquiv   == "Equiv" \notin law
+InvRewrite == "Rewrite" \notin law
 
-\* NOT is the complement within the view, NOT NOT k is k
-InvNot == Asked => /\ R(Not(key)) = Pos(mbox) \ R(key)
-                   /\ R(Not(Not(key))) = R(key)
-
-\* OR is union, and OR a b == NOT (NOT a NOT b)
-InvOr == (Asked /\ key.op = "OR") =>
-            /\ R(key) = R(key.a) \cup R(key.b)
-            /\ R(key) = R(Not(And(<<Not(key.a), Not(key.b)>>)))
-
-\* several keys are the intersection
-InvAnd == (Asked /\ key.op = "AND") =>
-            R(key) = {p \in Pos(mbox) : \A i \in 1..Len(key.ks) : p \in R(key.ks[i])}
-
-\* the UID answer is the sequence-number answer mapped through the view
-InvUidSeq == Asked =>
-    /\ exp.uid.alts = AltsU(key, mbox, Ideal)      \* evaluated by UID, on its own
-    /\ \A A \in exp.seq.alts : A \subseteq Pos(mbox)
-    /\ R(key) \in exp.seq.alts
-    /\ ResU(key, mbox, Ideal) = ToUids(R(key), mbox)
-
-\* every rewriting in Equivs(key) selects the same messages (under every reading of the dates)
-InvEquiv == (Asked /\ ~rw) =>
-    \A e \in Equivs(key) : \A dm \in DateModes :
-        Res(e, mbox, [Ideal EXCEPT !.date = dm]) = Res(key, mbox, [Ideal EXCEPT !.date = dm])
-
-\* a deviation is listed only where it changes the answer
-InvDev == Asked =>
+\* a deviation is listed only where it changes the answer; answers lie in the view
+InvDev ==
     /\ \A D \in DOMAIN exp.seq.dev : exp.seq.dev[D] # exp.seq.alts
     /\ \A D \in DOMAIN exp.uid.dev : exp.uid.dev[D] # exp.uid.alts
+    /\ \A A \in exp.uid.alts : A \subseteq Uids
 
 =============================================================================
